@@ -802,6 +802,14 @@ func (bp *brokerProducer) run() {
 				continue
 			}
 
+			if msg.flags&fin == fin {
+				// a fin chaser is never data: if we are not (or no longer) retrying its partition, hand it
+				// straight back to the partition producer, which is waiting for it to flush its backlog
+				verifEvt("bp.bounce", msg, msg.retries, int(bp.broker.ID()))
+				bp.parent.retryMessage(msg, ErrOutOfBrokers)
+				continue
+			}
+
 			if bp.buffer.wouldOverflow(msg) {
 				Logger.Printf("producer/broker/%d maximum request accumulated, waiting for space\n", bp.broker.ID())
 				if err := bp.waitForSpace(msg, false); err != nil {
